@@ -488,6 +488,7 @@ def run_c15(tier, seed, workdir):
     obs_path = os.path.join(workdir, 'obs.txt')
     keys = {}
     rejected = {}
+    codecut = {}
     stats = Counter()
     with open(obs_path, 'w') as f:
         for c in cases:
@@ -534,6 +535,16 @@ def run_c15(tier, seed, workdir):
                     # every return is an action on the calling act: it needs the outputs the act declares (C05)
                     unsat = int(bool(declared - set(want)))
                     rejected[f"{c['id']}/{par}"] = bool(unsat)
+                    if child_end[0] == 'error' and not unsat:
+                        # the calling act carries the error code its child ended with
+                        acode = next((l.split(' ')[2] for l in pl_lines if l.startswith(f'E {act} ')), None)
+                        ccode = next((l.split(' ')[2] for l in ch_lines if l.startswith('E 0 ')), None)
+                        stats['error_code_compared'] += 1
+                        outs_ok = int(acode is not None and acode == ccode)
+                        if not outs_ok and declared:
+                            # the return is an action on the calling act: its options are cut down to the outputs the act declares,
+                            # which drops `ecode` / `message` (known finding: the act then fails with the engine's own message)
+                            codecut[f"{c['id']}/{par}"] = True
                     if child_end[0] == 'completed' and not unsat:
                         # the options of the return are cut down to the outputs the calling act declares (C07)
                         outs_ok = int(all(have.get(k) == v for k, v in want.items() if k != 'data' and (not declared or k in declared)))
@@ -559,6 +570,8 @@ def run_c15(tier, seed, workdir):
         c = keys[p[0]]
         for cl in p[2:]:
             cls = f"15:{cl}"
+            if cl == '1503' and codecut.get(p[0]):
+                cls = '15:1503:error_code_cut_by_declared_outputs'
             if cl == '1502' and ' act=- ' in obs[p[0]]:
                 cls = '15:1502:return_rejected' if rejected.get(p[0]) else '15:1502:never_closed'
             violations.append({'class': cls, 'detail': f"{p[0]}: {text.get(int(cl), cl)} ({obs[p[0]].strip()})", 'case': {'kind': 'multi', 'case': c, 'pid': p[0].split('/')[1]}})
